@@ -116,6 +116,7 @@ type RPC struct {
 	NTlrOpts  int      `json:"n_tlr_opts,omitempty"`
 	PeerOpt   bool     `json:"peer_opt,omitempty"`
 	Creds     *CredSpec `json:"creds,omitempty"`
+	Creds0    *CredSpec `json:"creds0,omitempty"` // an earlier per-RPC-credentials option on the same call (the later one, Creds, is the one in effect)
 	CtxVals   int      `json:"ctx_vals,omitempty"` // number of caller context values (C10)
 	After     int      `json:"after,omitempty"` // 1 + id of the call whose client side must have finished before this call starts (0: starts at once)
 	Expect       string `json:"expect,omitempty"`        // C12: own | none | either
